@@ -19,7 +19,7 @@ LEVEL_TEXT = "all interleavings with <= 2 preemptions of two read-modify-write o
 RULE = (
     "API level: 2-3 threads each retrieve_stage -> modify (unique tag in context and outputs, optionally a task status) "
     "-> save through store.store_stage (plain, optionally with expected_phase) or store.transaction()+txn.store_stage, "
-    "with or without retry on fresh data, or a transaction that fails AFTER its store_stage succeeded and is retried with "
+    "on a stage with task rows and on a stage without any (tasks built at planning time), with or without retry on fresh data, or a transaction that fails AFTER its store_stage succeeded and is retried with "
     "the same in-memory object (what execute_atomic does on a lock error); every schedule with <= 2 preemptions for two writers, seeded random schedules "
     "for three. Recorded history: (writer, attempt, version read, outcome, version after). Oracles: <= 1 success per "
     "base version; final version = initial + successes; the final row holds the tag of EVERY successful writer; every "
@@ -51,6 +51,13 @@ def gen_cases(tier: str, seed: int) -> list[dict]:
             for retry in (False, True):
                 for c in range(chunks):
                     cases.append({"kind": "api2", "modes": [mode_a, mode_b], "retry": retry, "chunk": c, "chunks": chunks, "seed": seed, "sample": 60 if tier == "quick" else 1500})
+    nt_modes = ["plain", "txn", "txn_phase", "txn_fault"]
+    for mode_a in nt_modes:
+        for mode_b in nt_modes:
+            if tier == "quick" and (nt_modes.index(mode_a) + nt_modes.index(mode_b)) % 2:
+                continue
+            for retry in (False, True):
+                cases.append({"kind": "api2", "modes": [mode_a, mode_b], "retry": retry, "chunk": 0, "chunks": 1, "seed": seed, "sample": 80 if tier == "quick" else 1500, "notasks": True})
     for i in range(10 if tier == "quick" else 80):
         cases.append({"kind": "api3", "i": i, "seed": seed, "runs": 25})
     for pair in ("join_tracking:DISCRIMINATOR", "join_tracking:N_OF_M", "cancel_complete", "join_tracking_vs_plan:DISCRIMINATOR", "join_tracking_vs_plan:N_OF_M"):
@@ -59,15 +66,17 @@ def gen_cases(tier: str, seed: int) -> list[dict]:
     return cases
 
 
-def _base_db() -> tuple[str, str]:
-    """A stored workflow with one RUNNING stage that has two tasks."""
+def _base_db(notasks: bool = False) -> tuple[str, str]:
+    """A stored workflow with one RUNNING stage that has two tasks - or (notasks) one NOT_STARTED stage
+    whose tasks are only built at planning time, i.e. a stage row without any task row (no per-task version
+    guard can stand in for the stage's own)."""
     from ..world import World
 
     w = World()
-    spec = {"name": "c07", "stages": [specs.st("s", [], [dict(specs.OK), dict(specs.OK)])]}
+    spec = {"name": "c07", "stages": [specs.st("s", [], [dict(specs.OK), dict(specs.OK)], **({"type": "vb"} if notasks else {}))]}
     w.submit(spec)
-    # run it up to RUNNING with first task RUNNING
-    for _ in range(3):
+    # run it up to RUNNING with first task RUNNING (notasks: only StartWorkflow, the stage stays unplanned)
+    for _ in range(1 if notasks else 3):
         rows = w.rows()
         w.deliver(rows[0]["id"])
     sid = w.snapshot_state()["stages"]["s"]["id"]
@@ -136,7 +145,7 @@ def _writer(w, sid: str, i: int, mode: str, retry: bool, hist: list, tag_prefix:
                 stage.tasks[1].task_exception_details = {"by": tag}
             rec = {"writer": i, "attempt": att, "mode": mode, "read_version": v0, "task_versions": tv0, "seq_before": w.max_seq()}
             try:
-                phase = "RUNNING" if "phase" in mode else None
+                phase = stage.status.name if "phase" in mode else None
                 if mode.startswith("plain"):
                     store.store_stage(stage, expected_phase=phase) if phase else store.store_stage(stage)
                 else:
@@ -231,7 +240,7 @@ def _api_run(db: str, sid: str, modes: list[str], retry: bool, policy) -> tuple[
 
 
 def _api2(case: dict) -> dict:
-    db, sid = _base_db()
+    db, sid = _base_db(bool(case.get("notasks")))
     obs: Counter = Counter()
     keys: set = set()
     violations = []
